@@ -122,6 +122,8 @@ Theorem C23_source_facts :
   gen_commands = [1; 3; 4] /\ gen_unknown_command_reply = rep_cmd_not_supported /\
   gen_authenticate_precedes_read_request = true /\
   gen_connect_dials_join_of_request_addr_and_port = true /\
-  gen_mesh_bound_address_lengths = [4; 16; 0] /\ gen_empty_bound_address_becomes_nil = true.
+  gen_mesh_bound_address_lengths = [4; 16; 0] /\ gen_empty_bound_address_becomes_nil = true /\
+  gen_read_request_buffers_are_fresh = true /\ gen_send_reply_buffer_is_local = true /\
+  gen_handler_has_no_shared_buffer_field = true /\ gen_handle_does_not_swallow_panics = true.
 Proof. repeat split; reflexivity. Qed.
 Print Assumptions C23_source_facts.
